@@ -166,6 +166,17 @@ claim("C03",
       "Trusted: python ast, table model, CPython format-unit table and LP64 sizes in the checker.",
       "DESIGN.md §4 C03")
 
+claim("C18",
+      "table and emitter-shape analysis over ast + table models (Lua type/pop/push family agreement per typemap, "
+      "dispatch construction in Wrapl.wrap_function, stack-index and result-push consistency in lua_statements)",
+      "Decides the structural necessary conditions of Lua call-equivalence: pop/push/type-tag of every supported type "
+      "agree with its C type and use the argument's own stack slot, one call variant exists per admissible argument "
+      "count, variants are selected by stack depth and lua_type of each slot, every non-matching shape reaches a "
+      "luaL_error arm, result counts are set in every arm, and statement templates are well formed. Behaviour of the "
+      "compiled binding is not executed.",
+      "Trusted: python ast, table model, Lua C-API family table in the checker.",
+      "DESIGN.md §4 C18")
+
 PENDING = "check not built yet in this session (fail-closed: not claimed until its rules run clean)"
-for _p in ["C01","C02","C18"]:
+for _p in ["C01","C02"]:
     na(_p, PENDING)
